@@ -130,6 +130,12 @@ pub fn run<K: Kmer + Send + Sync>(c: &GCase) -> Outcome {
         if t.unitigs(&same_colour) != t.unitigs(&always) {
             o.flags |= flag::SPECIFIC;
         }
+        {
+            let mut rows = cv.clone();
+            rows.reverse();
+            let (_, gvp) = finish_view(compress_kmers(c.stranded, &ScmapCompress::new(), &rows));
+            note(&mut o, "compress_kmers/colour/permuted-rows", check_maximal(&gvp, t, &same_colour));
+        }
         let (_, gv) = finish_view(compress_kmers(c.stranded, &ScmapCompress::new(), &cv));
         note(&mut o, "compress_kmers/colour", check_maximal(&gv, t, &same_colour));
         note(&mut o, "compress_kmers/colour/payload", check_payload(&gv, &|ks: &[S]| t.e[&ks[0]].labels(), &|d: &Vec<u64>, e: &Vec<u64>| d == e));
